@@ -220,7 +220,7 @@ theorem onDoneReady_spec (m : Machine) (cfg : List Path) (a : Path) :
   onDoneReady_iff
 
 /-- *"exactly once": at most one done event per final state entered.* With the hooks of either engine
-    (`b = false` for `hooksFlagged` / `hooksAsyncStart`, `true` for `hooksAsync`: see
+    (`b = false` for `hooksAsyncStart`, `true` for `hooksFlagged` / `hooksAsync`: see
     `hooksFlagged_snd_queue` …) the queue grows by exactly the one done event of the firing ancestor
     when there is one and the machine is running, and not at all otherwise. -/
 theorem at_most_one_done_event (h : Hooks) (b : Bool)
@@ -323,11 +323,11 @@ theorem nearest_ancestor_shadows_outer (u : UEnv) (m : Machine) (fin : Path) (s 
     (ha : firingAncestor m s.cfg fin = some a) (hrun : s.status = "running") :
     ∀ b, b <+: a → b ≠ a → onDoneReady m s.cfg b = true →
       checkAndFireOnDone (hooksFlagged u m) m fin s =
-        { s with queue := s.queue ++ [⟨doneEv m a, false⟩] } := by
+        { s with queue := s.queue ++ [⟨doneEv m a, true⟩] } := by
   intro _ _ _ _
   rw [fires_for_ancestor _ m fin s a ha]
-  show enqueueQ false _ s = _
-  rw [enqueueQ_running false _ hrun]; rfl
+  show enqueueQ true _ s = _
+  rw [enqueueQ_running true _ hrun]; rfl
 
 /-- `shadowM`: `B` is in `bf`; `af` is entered, which makes BOTH `A` and `P` done, both declare
     `onDone`; only `done.state.s.P.A` is queued — `P`'s done event is not raised. -/
@@ -428,16 +428,16 @@ example : let s := asyncSend goM exU (.user "GO") (asyncStart goM exU {})
 
 /-- *Inside one macrostep (sync):* once the machine is not running, the rest of the queue is discarded
     without anything being processed. -/
-theorem drain_stops_when_done (m : Machine) (u : UEnv) (n : Nat) (s : St) (h : s.status ≠ "running") :
-    drainLoop m u (n + 1) s = if s.queue = [] then s else { s with queue := [] } :=
-  drainLoop_not_running m u n h
+theorem drain_stops_when_done (m : Machine) (u : UEnv) (n c : Nat) (s : St) (h : s.status ≠ "running") :
+    drainLoop m u (n + 1) c s = if s.queue = [] then s else { s with queue := [] } :=
+  drainLoop_not_running m u n c h
 
 /-- *(async):* the run loop leaves a machine that is not running alone (queue included). -/
 theorem asyncDrain_stops_when_done (m : Machine) (u : UEnv) (n : Nat) (s : St) (h : s.status ≠ "running") :
     asyncDrain m u n s = s := asyncDrain_not_running m u n h
 
 example : let s : St := { status := "done", queue := [⟨.user "A", false⟩, ⟨.user "B", false⟩], cfg := [[], ["f"]] }
-    let r := drainLoop goM exU 5 s
+    let r := drainFlagged goM exU s
     (evTypes r, r.trace, r.cfg, r.status) = ([], [], [[], ["f"]], "done") := by decide
 
 /-! ## 4. nothing is queued once the machine is not running -/
